@@ -1,11 +1,16 @@
 use crate::explore::{self, Ctx, ExploreCfg, RunOut, Scenario};
 use crate::link::{Link, LinkCfg, Probe, LINK_FLAG_NAMES};
+use crate::netsim::{NetProbe, Sim, SimCfg, NET_FLAG_NAMES};
+use crate::json::J;
 use crate::report::{self, Report, Tier};
 
 pub mod c01;
 pub mod c02;
 pub mod c03;
 pub mod c04;
+pub mod c05;
+pub mod c10;
+pub mod hsworld;
 pub mod c06;
 pub mod c07;
 pub mod c08;
@@ -16,6 +21,9 @@ pub mod c13;
 pub mod c14;
 pub mod c15;
 pub mod c16;
+pub mod c17;
+pub mod c18;
+pub mod c19;
 pub mod ackworld;
 
 pub fn run(prop: &str, tier: Tier) -> i32 {
@@ -24,6 +32,8 @@ pub fn run(prop: &str, tier: Tier) -> i32 {
         "C02" => c02::run(tier),
         "C03" => c03::run(tier),
         "C04" => c04::run(tier),
+        "C05" => c05::run(tier),
+        "C10" => c10::run(tier),
         "C06" => c06::run(tier),
         "C07" => c07::run(tier),
         "C08" => c08::run(tier),
@@ -34,6 +44,9 @@ pub fn run(prop: &str, tier: Tier) -> i32 {
         "C14" => c14::run(tier),
         "C15" => c15::run(tier),
         "C16" => c16::run(tier),
+        "C17" => c17::run(tier),
+        "C18" => c18::run(tier),
+        "C19" => c19::run(tier),
         _ => {
             eprintln!("no check registered for {}", prop);
             2
@@ -54,6 +67,8 @@ pub fn replay(prop: &str, path: &str) -> i32 {
         "C02" => c02::replay(&j),
         "C03" => c03::replay(&j),
         "C04" => c04::replay(&j),
+        "C05" => c05::replay(&j),
+        "C10" => c10::replay(&j),
         "C06" => c06::replay(&j),
         "C07" => c07::replay(&j),
         "C08" => c08::replay(&j),
@@ -64,6 +79,9 @@ pub fn replay(prop: &str, path: &str) -> i32 {
         "C14" => c14::replay(&j),
         "C15" => c15::replay(&j),
         "C16" => c16::replay(&j),
+        "C17" => c17::replay(&j),
+        "C18" => c18::replay(&j),
+        "C19" => c19::replay(&j),
         _ => {
             eprintln!("no replay registered for {}", prop);
             2
@@ -147,8 +165,157 @@ pub fn replay_link<F: Fn() -> Box<dyn Probe> + Sync>(scenarios: &[LinkScenario<F
     }
 }
 
-/// C13 (d): placeholder until the netcode world is registered
-pub fn netcode_sizes(_rep: &mut Report, _tier: Tier) {}
+/// C13 (d): every datagram the netcode layer produces is at most 1400 bytes
+pub fn netcode_sizes(rep: &mut Report, tier: Tier) {
+    use crate::explore::Violation;
+    use crate::nc::{self, client_addr, make_token, new_client, new_server, server_addr, TokenSpec};
+    use std::time::Duration;
+    let _ = tier;
+    let public = vec![server_addr(0)];
+    let mut server = new_server(2, public.clone(), Duration::ZERO);
+    let t1 = make_token(&TokenSpec::new(1, 11, public));
+    let mut c1 = new_client(Duration::ZERO, &t1);
+    let mut sizes: Vec<(String, usize)> = vec![];
+    let mut viol: Option<Violation> = None;
+    // handshake datagrams of a real session
+    let r = (|| -> Result<(), Violation> {
+        for _ in 0..6 {
+            if let Some((p, _)) = nc::cli_update(&mut c1, Duration::from_millis(250))? {
+                sizes.push(("client handshake/keep-alive".into(), p.len()));
+                let r = nc::srv_process(&mut server, client_addr(1), &p)?;
+                if let Some((_, b)) = r.reply() {
+                    sizes.push((format!("server reply {}", r.kind()), b.len()));
+                    nc::cli_process(&mut c1, b)?;
+                }
+            }
+        }
+        Ok(())
+    })();
+    if let Err(v) = r {
+        viol = Some(v);
+    }
+    let mut seqs = crate::props::c16::netcode_sequences();
+    seqs.retain(|s| *s < u64::MAX - 4);
+    let mut cases = 0u64;
+    for &seq in &seqs {
+        for len in [0usize, 1, 1299, 1300, 1301] {
+            cases += 2;
+            let payload = vec![0xABu8; len];
+            let mut c = c1.clone();
+            c.verif_set_sequence(seq);
+            let rc = crate::link::guard("NetcodeClient::generate_payload_packet", || c.generate_payload_packet(&payload).map(|(_, p)| p.len()).ok());
+            let mut s = server.clone();
+            s.verif_set_client_sequence(1, seq);
+            let rs = crate::link::guard("NetcodeServer::generate_payload_packet", || s.generate_payload_packet(1, &payload).map(|(_, p)| p.len()).ok());
+            for (who, r) in [("client", rc), ("server", rs)] {
+                match r {
+                    Err(v) => viol = Some(v),
+                    Ok(Some(n)) => {
+                        sizes.push((format!("{} payload {} seq {}", who, len, seq), n));
+                        if len > 1300 {
+                            viol = Some(Violation::new("C13/netcode-accepts-payload-over-1300", format!("{} generate_payload_packet accepted {} bytes", who, len)));
+                        }
+                    }
+                    Ok(None) => {
+                        if len <= 1300 {
+                            viol = Some(Violation::new("C13/netcode-rejects-payload-within-limit", format!("{} generate_payload_packet refused {} bytes at sequence {}", who, len, seq)));
+                        }
+                    }
+                }
+            }
+        }
+    }
+    for (what, n) in &sizes {
+        if *n > 1400 {
+            viol = Some(Violation::new("C13/netcode-datagram-over-1400", format!("{}: {} bytes", what, n)));
+        }
+    }
+    let distinct = {
+        let mut v: Vec<usize> = sizes.iter().map(|s| s.1).collect();
+        v.sort();
+        v.dedup();
+        v.len() as u64
+    };
+    rep.add_sweep("netcode-datagram-sizes", cases + sizes.len() as u64, distinct, 1, vec![format!("largest datagram {:?}", sizes.iter().max_by_key(|s| s.1))]);
+    if let Some(v) = viol {
+        rep.violation("netcode-datagram-sizes", v, J::obj().set("kind", J::s("netcode-sizes")));
+    }
+}
+
 pub fn netcode_sizes_replay(_j: &crate::json::J) -> i32 {
-    2
+    let mut rep = Report::new("C13", Tier::Quick);
+    netcode_sizes(&mut rep, Tier::Quick);
+    for v in &rep.violations {
+        println!("RESULT: violation {} — {}", v.signature, v.message);
+    }
+    if rep.violations.is_empty() {
+        println!("RESULT: no violation");
+        0
+    } else {
+        1
+    }
+}
+
+/// A netcode scenario = configuration + oracle factory.
+pub struct NetScenario {
+    pub cfg: SimCfg,
+    pub probe: fn() -> Box<dyn NetProbe>,
+}
+
+impl Scenario for NetScenario {
+    fn name(&self) -> String {
+        self.cfg.name.clone()
+    }
+    fn run(&self, ctx: &mut Ctx) -> RunOut {
+        let mut p = (self.probe)();
+        let (violation, outcome) = Sim::run(&self.cfg, ctx, p.as_mut());
+        RunOut { violation, outcome }
+    }
+}
+
+pub fn run_net_scenarios(rep: &mut Report, part: &str, scenarios: &[NetScenario], max_dev: u32, wall_cap_s: f64) {
+    for (i, sc) in scenarios.iter().enumerate() {
+        let cfg = ExploreCfg { max_dev, wall_cap_s, ..Default::default() };
+        match explore::explore_schedules(sc, i, &cfg, NET_FLAG_NAMES.len()) {
+            Ok(r) => rep.add_explore(&format!("{}/{}", part, sc.cfg.name), &r, &NET_FLAG_NAMES),
+            Err(e) => {
+                rep.machinery = Some(e.0);
+                return;
+            }
+        }
+        if rep.violations.len() >= 8 {
+            return;
+        }
+    }
+}
+
+pub fn replay_net(scenarios: &[NetScenario], j: &crate::json::J) -> i32 {
+    let idx = j.get("scenario_index").and_then(|x| x.as_i()).unwrap_or(0) as usize;
+    let Some(sc) = scenarios.get(idx) else {
+        eprintln!("scenario index {} out of range", idx);
+        return 2;
+    };
+    let choices = report::choices_of(j);
+    match explore::replay(sc, &choices) {
+        Err(e) => {
+            eprintln!("MACHINERY ERROR: {}", e.0);
+            2
+        }
+        Ok((log, v)) => {
+            println!("replay of scenario '{}' with choices {:?}", sc.cfg.name, choices);
+            for l in log {
+                println!("  {}", l);
+            }
+            match v {
+                Some(v) => {
+                    println!("RESULT: violation {} — {}", v.signature, v.message);
+                    1
+                }
+                None => {
+                    println!("RESULT: no violation");
+                    0
+                }
+            }
+        }
+    }
 }
